@@ -363,6 +363,24 @@ impl<'tcx> Extract<'tcx> {
                 // a named constant (`usize::BITS`, a local `const TOP_BIT: u32 = ..`) of integer type whose value does not
                 // depend on a generic parameter: also give the value it evaluates to
                 if let rustc_middle::mir::Const::Unevaluated(..) = c.const_ {
+                    // a named constant of a crate-local newtype over an integer (`Position::ROOT`): the constructor applied to
+                    // the value
+                    if let ty::Adt(adt, aargs) = t.kind() {
+                        if adt.did().is_local() && adt.is_struct() && adt.non_enum_variant().fields.len() == 1 {
+                            let fld = adt.non_enum_variant().fields.iter().next().unwrap();
+                            let fty = fld.ty(self.tcx, aargs);
+                            if fty.is_integral() {
+                                let env = TypingEnv::post_analysis(self.tcx, self.cur_owner.get());
+                                if let Some(si) = c.const_.try_eval_scalar_int(self.tcx, env) {
+                                    let bits = si.to_bits(si.size());
+                                    o.push(("eval_newtype", J::Obj(vec![
+                                        ("path", J::s(self.tcx.def_path_str(adt.did()))),
+                                        ("val", J::s(format!("const {}_{}", bits, fty))),
+                                    ])));
+                                }
+                            }
+                        }
+                    }
                     if t.is_integral() {
                         let env = TypingEnv::post_analysis(self.tcx, self.cur_owner.get());
                         if let Some(si) = c.const_.try_eval_scalar_int(self.tcx, env) {
